@@ -25,36 +25,20 @@ Open Scope Z_scope.
 
 (** ---------- ASCII core ---------- *)
 
-(** "parseASCIIStrict inverts writeStrictASCII for ALL byte strings" is REFUTED for the code as
-    it is (finding C13-ascii-gt): witness the one-byte string ">" . *)
-Theorem C13_strict_ascii_roundtrip_refuted :
-  exists (s : bytes) q, is_q q /\ Forall is_byte s /\
-    parse_ascii_strict (write_strict_ascii q s ++ [c_gt]) = AErr EUnclosedQuote.
-Proof. exact strict_ascii_roundtrip_refuted. Qed.
-Print Assumptions C13_strict_ascii_roundtrip_refuted.
-
-(** It holds for the code as it is on every byte string WITHOUT that byte: the other 255 values,
-    runs, escapes, 0xHH tokens, the empty string, both quote styles, whatever follows the item. *)
-Theorem C13_strict_ascii_roundtrip_no_gt : forall (s : bytes) q rest,
-  is_q q -> Forall is_byte s -> ~ In c_gt s ->
+(** parseASCIIStrict inverts writeStrictASCII for ALL 256 byte values: runs, escapes (quote,
+    backslash, closing bracket), 0xHH tokens, the empty string, both quote styles, whatever
+    follows the item. (The closing bracket is escaped since the repair of finding C13-ascii-gt.) *)
+Theorem C13_strict_ascii_roundtrip : forall (s : bytes) q rest,
+  is_q q -> Forall is_byte s ->
   parse_ascii_strict (write_strict_ascii q s ++ c_gt :: rest)
   = AOk s (blen (write_strict_ascii q s) + 1) rest.
-Proof. exact strict_ascii_roundtrip_no_gt. Qed.
-Print Assumptions C13_strict_ascii_roundtrip_no_gt.
-
-(** With the proposed one-line repair (escape ">" in writeStrictASCII; the parser already reads
-    the escape) it holds for ALL 256 byte values. REPAIRED writer, not the code. *)
-Theorem C13_strict_ascii_roundtrip_fixed : forall (s : bytes) q rest,
-  is_q q -> Forall is_byte s ->
-  parse_ascii_strict (write_strict_ascii_fixed q s ++ c_gt :: rest)
-  = AOk s (blen (write_strict_ascii_fixed q s) + 1) rest.
-Proof. exact strict_ascii_roundtrip_fixed. Qed.
-Print Assumptions C13_strict_ascii_roundtrip_fixed.
+Proof. exact strict_ascii_roundtrip. Qed.
+Print Assumptions C13_strict_ascii_roundtrip.
 
 (** ---------- first half: parse (encode m) = [m'] with m' equal to m ---------- *)
 
-(** The code as it is: every data message of the grammar ([dom_msg false]: lists, ASCII items of
-    any bytes EXCEPT ">", binary, boolean, integers of every width, floats incl. NaN/Inf/-0,
+(** Every data message of the grammar ([dom_msg true]: lists, ASCII items of ALL byte values,
+    binary, boolean, integers of every width, floats incl. NaN/Inf/-0,
     JIS-8 / localized text under the restriction, empty items, any nesting; stream 0..127,
     function 0..255, W only on odd functions) and every option combination with strict mode on
     (quote style x S/F quote style x binary style x whitespace indent): the strict parser returns
@@ -65,35 +49,12 @@ Theorem C13_encode_parse :
     (forall w v, fdom w v = true -> good_tok (ffmt w v) = true) ->
     (forall w v, fdom w v = true -> exists v', fparse w (ffmt w v) = Some v' /\ feq narrow32 w v v') ->
     (forall s, quote_plain s = true -> quote s = c_dq :: s ++ [c_dq]) ->
-    forall o m, opts_ok o = true -> dom_msg false quote_plain m = true ->
+    forall o m, opts_ok o = true -> dom_msg true quote_plain m = true ->
     exists m' st, parse_strict fparse (encode_msg ffmt quote o m) = POk [m'] st /\ msg_eqv narrow32 m m'.
 Proof. exact encode_parse_current. Qed.
 Print Assumptions C13_encode_parse.
 
-(** The same for ASCII items with ALL byte values, for the REPAIRED encoder. *)
-Theorem C13_encode_parse_fixed :
-  forall (ffmt : fwidth -> Z -> bytes) (quote : bytes -> bytes) (fparse : fwidth -> bytes -> option Z)
-         (quote_plain : bytes -> bool) (narrow32 : Z -> Z),
-    (forall w v, fdom w v = true -> good_tok (ffmt w v) = true) ->
-    (forall w v, fdom w v = true -> exists v', fparse w (ffmt w v) = Some v' /\ feq narrow32 w v v') ->
-    (forall s, quote_plain s = true -> quote s = c_dq :: s ++ [c_dq]) ->
-    forall o m, opts_ok o = true -> dom_msg true quote_plain m = true ->
-    exists m' st, parse_strict fparse (encode_msg_w write_strict_ascii_fixed ffmt quote o m) = POk [m'] st
-                  /\ msg_eqv narrow32 m m'.
-Proof. exact encode_parse_fixed. Qed.
-Print Assumptions C13_encode_parse_fixed.
-
-(** The statement with "ASCII items with any byte values" is REFUTED for the code as it is:
-    S1F1 W <A[1] ">"> is a message of the full grammar whose strict text the strict parser
-    rejects at offset 13 ("unclosed quote string"). *)
-Theorem C13_encode_parse_refuted :
-  forall ffmt quote fparse quote_plain,
-    opts_ok strict_opts0 = true /\ dom_msg true quote_plain msg_gt = true /\
-    parse_strict fparse (encode_msg ffmt quote strict_opts0 msg_gt) = PErr (PE_Ascii EUnclosedQuote) 13.
-Proof. exact encode_parse_refuted. Qed.
-Print Assumptions C13_encode_parse_refuted.
-
-(** Second refutation (finding C13-localized-quote): localized text that strconv.Quote escapes —
+(** Refutation (finding C13-localized-quote): localized text that strconv.Quote escapes —
     witness U+00A0, which is no quote, backslash, angle bracket or control character — is read
     back with the escape spelled out (6 bytes instead of 2). Premise: what Quote returns for it. *)
 Theorem C13_encode_parse_localized_refuted :
@@ -116,8 +77,8 @@ Theorem C13_parser_output :
 Proof. exact parse_strict_out. Qed.
 Print Assumptions C13_parser_output.
 
-(** The code as it is: every accepted message whose JIS-8 / localized text obeys the restriction
-    and whose ASCII items hold no ">" re-encodes (any options) and re-parses to an equal message. *)
+(** Every accepted message whose JIS-8 / localized text obeys the restriction re-encodes (any
+    options) and re-parses to an equal message. *)
 Theorem C13_parse_encode_parse :
   forall (ffmt : fwidth -> Z -> bytes) (quote : bytes -> bytes) (fparse : fwidth -> bytes -> option Z)
          (quote_plain : bytes -> bool) (narrow32 : Z -> Z),
@@ -126,32 +87,17 @@ Theorem C13_parse_encode_parse :
     (forall s, quote_plain s = true -> quote s = c_dq :: s ++ [c_dq]) ->
     (forall w tok v, fparse w tok = Some v -> fdom w v = true) ->
     forall o t ms st, opts_ok o = true -> bytes_ok t = true -> parse_strict fparse t = POk ms st ->
-    forall m, In m ms -> restricted false quote_plain (m_body m) = true ->
+    forall m, In m ms -> restricted true quote_plain (m_body m) = true ->
     exists m' st', parse_strict fparse (encode_msg ffmt quote o m) = POk [m'] st' /\ msg_eqv narrow32 m m'.
 Proof. exact parse_encode_parse_current. Qed.
 Print Assumptions C13_parse_encode_parse.
-
-(** The REPAIRED encoder: no condition on ASCII items. *)
-Theorem C13_parse_encode_parse_fixed :
-  forall (ffmt : fwidth -> Z -> bytes) (quote : bytes -> bytes) (fparse : fwidth -> bytes -> option Z)
-         (quote_plain : bytes -> bool) (narrow32 : Z -> Z),
-    (forall w v, fdom w v = true -> good_tok (ffmt w v) = true) ->
-    (forall w v, fdom w v = true -> exists v', fparse w (ffmt w v) = Some v' /\ feq narrow32 w v v') ->
-    (forall s, quote_plain s = true -> quote s = c_dq :: s ++ [c_dq]) ->
-    (forall w tok v, fparse w tok = Some v -> fdom w v = true) ->
-    forall o t ms st, opts_ok o = true -> bytes_ok t = true -> parse_strict fparse t = POk ms st ->
-    forall m, In m ms -> restricted true quote_plain (m_body m) = true ->
-    exists m' st', parse_strict fparse (encode_msg_w write_strict_ascii_fixed ffmt quote o m) = POk [m'] st'
-                   /\ msg_eqv narrow32 m m'.
-Proof. exact parse_encode_parse_fixed. Qed.
-Print Assumptions C13_parse_encode_parse_fixed.
 
 (** ---------- non-vacuity ---------- *)
 
 Example C13_ascii_nonvacuous :
   let s := [97; 34; 39; 92; 0; 255; 32; 10; 98] in
   parse_ascii_strict (write_strict_ascii c_sq s ++ [c_gt; 10; 46]) = AOk s (blen (write_strict_ascii c_sq s) + 1) [10; 46] /\
-  parse_ascii_strict (write_strict_ascii_fixed c_dq (c_gt :: s) ++ [c_gt]) = AOk (c_gt :: s) (blen (write_strict_ascii_fixed c_dq (c_gt :: s)) + 1) [].
+  parse_ascii_strict (write_strict_ascii c_dq (c_gt :: s) ++ [c_gt]) = AOk (c_gt :: s) (blen (write_strict_ascii c_dq (c_gt :: s)) + 1) [].
 Proof. split; vm_compute; reflexivity. Qed.
 
 (** the laws are jointly satisfiable (Sml/StrictToyOracle.v), and a message with every item kind,
@@ -160,7 +106,7 @@ Definition demo_opts : enc_opts :=
   {| eo_strict := true; eo_ascii_single := true; eo_sf_quote := 2; eo_binary_literal := true; eo_indent := [9] |}.
 Definition demo_msg : msg :=
   {| m_stream := 127; m_function := 255; m_wbit := true;
-     m_body := IList [IAscii [104; 39; 92; 0; 255; 105]; IList []; IList [IBinary [0; 255]; IBoolean [true; false]];
+     m_body := IList [IAscii [104; 39; 92; 0; 255; 62; 105]; IList []; IList [IBinary [0; 255]; IBoolean [true; false]];
                       IInt W1 [-128; 127]; IUint W8 [18446744073709551615]; IFloat F8 [0; 9218868437227405312];
                       IJis8 [97; 200]; ILocal [98]; IAscii []] |}.
 Example C13_encode_parse_nonvacuous :
@@ -168,7 +114,7 @@ Example C13_encode_parse_nonvacuous :
   (forall w v, fdom w v = true -> exists v', toy_fparse w (toy_ffmt w v) = Some v' /\ feq toy_narrow w v v') /\
   (forall s, toy_quote_plain s = true -> toy_quote s = c_dq :: s ++ [c_dq]) /\
   (forall w tok v, toy_fparse w tok = Some v -> fdom w v = true) /\
-  opts_ok demo_opts = true /\ dom_msg false toy_quote_plain demo_msg = true /\
+  opts_ok demo_opts = true /\ dom_msg true toy_quote_plain demo_msg = true /\
   exists st, parse_strict toy_fparse (encode_msg toy_ffmt toy_quote demo_opts demo_msg) = POk [demo_msg] st.
 Proof.
   split; [exact toy_ffmt_good|]. split; [exact toy_roundtrip|]. split; [exact toy_quote_law|].
